@@ -659,11 +659,23 @@ func (st *Stack) compactRange(first, last int, expiration *LogExpirationConfig) 
 		return false, err
 	}
 
-	lockFileName = st.listFile + ".lock"
-	lockFile, err = os.OpenFile(lockFileName, os.O_EXCL|os.O_CREATE|os.O_WRONLY, 0644)
+	// If we bail out from here on, don't leave the merged table behind.
+	rmTable := tmpTable
+	defer func() {
+		if rmTable != "" {
+			os.Remove(rmTable)
+		}
+	}()
+
+	lockFile, err = os.OpenFile(st.listFile+".lock", os.O_EXCL|os.O_CREATE|os.O_WRONLY, 0644)
+	if os.IsExist(err) {
+		// Somebody else holds the lock; it is not ours to remove.
+		return false, nil
+	}
 	if err != nil {
 		return false, err
 	}
+	lockFileName = st.listFile + ".lock"
 
 	defer lockFile.Close()
 
@@ -678,6 +690,7 @@ func (st *Stack) compactRange(first, last int, expiration *LogExpirationConfig) 
 		if err := os.Rename(tmpTable, destTable); err != nil {
 			return false, err
 		}
+		rmTable = ""
 	}
 
 	var names []string
